@@ -411,6 +411,8 @@ class ExprMixin:
             n0 = Length(out.z)
             s.fact(Length(new) == n0 + 1)
             s.fact(new[n0] == xz)
+            for h in self.reg.attr_hooks:
+                h(self, 'appended', (out.z, xz, new, out.a['elem']), s)
             self.touch(s, n0)
             self.assume_clause(s, [QBool(BoolVal(True), IntVal(0), n0, lambda k, new=new, old=out.z: new[k] == old[k])])
             for h in getattr(self.cur, 'yield_hooks', []):
